@@ -647,6 +647,37 @@ class PowerC03(Monitor):
                             f'delivered {d!r} != assigned {e!r} '
                             f'(rel {abs(d - e) / max(abs(e), 1e-300):.3e})',
                             feats)
+        # end to end: in an adiabatic constant-property world every watt
+        # that was assigned - whichever component it was deposited in - has
+        # to leave with the coolant (the tallies above are DASSH's own)
+        # (only where the scheme passes wall heat on within the same level:
+        # pin bundles over the whole length whose bypass gaps, if any, flow,
+        # without the low-flow wall approximation; lagged walls - six-node
+        # and single-node regions, stagnant gaps - hand part of it to the
+        # next level and are C01's business)
+        if self.spec.get('const') and \
+                self.spec['core']['gap_model'] == 'none' and \
+                not getattr(sim, 'truncated', False):
+            Tin = float(r.inlet_temp)
+            for a in r.assemblies:
+                rg = a.active_region
+                if len(a.region) != 1 or not is_rodded(rg) or \
+                        stagnant_bypass(rg) or \
+                        getattr(rg, '_conv_approx', False):
+                    continue
+                cp = float(rg.coolant.heat_capacity)
+                m_int, m_byp = mass_flows(rg)
+                m_tot = float(np.sum(m_int)) + (
+                    float(np.sum(m_byp)) if m_byp is not None else 0.0)
+                dH = enthalpy_flow(rg, cp) - cp * m_tot * Tin
+                e = float(a.total_power)
+                sim.probe('c03.enthalpy_rise_checked')
+                if abs(dH - e) > 1e-8 * abs(e) + 1e-10 * cp * m_tot * Tin:
+                    sim.violate(
+                        'power.enthalpy_rise', f'asm{a.id}',
+                        f'coolant enthalpy rise over the sweep {dH!r} != '
+                        f'assigned power {e!r} (adiabatic, constant '
+                        f'properties)', {'enthalpy_rise'})
 
 
 # ----------------------------------------------------------------------
@@ -776,6 +807,29 @@ class PressureC14(Monitor):
                                  else rg.model})
                 if is_rodded(rg) and 'grid' in rg.corr_constants:
                     K = float(rg.coolant_int_params['grid_loss_coeff'])
+                    # loss coefficient from the generated world where it is
+                    # a closed form of the input (given, or Cigarini - Dalle
+                    # Donne with the input's coefficients and solidity)
+                    tsp = [t for t in self.spec['types']
+                           if t['name'] == a.name]
+                    sp = tsp[0].get('spacer') if tsp else None
+                    Kx = None
+                    if sp and 'loss_coeff' in sp:
+                        Kx = float(sp['loss_coeff'])
+                    elif sp and sp.get('corr') == 'CDD' and 'solidity' in sp:
+                        c = sp.get('corr_coeff') or [3.5, 73.14, -0.264,
+                                                     2.79e10, -2.79, 2.0, 2.0]
+                        Re = float(rg.coolant_int_params['Re'])
+                        Kx = min((c[0] + c[1] * Re**c[2] + c[3] * Re**c[4])
+                                 * float(sp['solidity'])**c[6], c[5])
+                    if Kx is not None:
+                        sim.probe('c14.loss_coeff_checked')
+                        if abs(K - Kx) > 1e-9 * max(abs(Kx), 1e-300):
+                            sim.violate(
+                                'dp.grid_loss_coeff', f'asm{a.id} {rg.name}',
+                                f'loss coefficient in use {K!r} != {Kx!r} '
+                                f'from the input ({sp.get("corr", "given")})',
+                                {'grid_loss_coeff'})
                     zs = [z for z in rg.corr_constants['grid']['z']]
                     gd = len(zs) * K * rho * v * v / 2
                     got = float(rg._pressure_drop['spacer_grid'])
